@@ -7,7 +7,7 @@
    Division by zero is an explicit result (C02_DivByZero), never a number. *)
 From Coq Require Import ZArith.
 From mathcomp Require Import all_ssreflect all_algebra.
-From DuneV Require Import C02_Model C02_Spec C02_Proofs C02_Proofs_Invert C02_Proofs_Closed.
+From DuneV Require Import C02_Model C02_Spec C02_Proofs C02_Proofs_Invert C02_Proofs_Closed C02_Proofs_Diag C02_Proofs_NoPivot.
 Import GRing.Theory.
 Local Open Scope ring_scope.
 
@@ -59,19 +59,52 @@ Theorem C02_singular_invert : forall n A piv, (3 < n)%N -> c02_wfm n A -> mx n A
   c02_invert ops A piv = C02_FMatrixError.
 Proof. exact (P_invert_lu_singular absr0). Qed.
 
-(* without pivoting: \det whenever the unpivoted elimination runs to completion.
-   FULL STATEMENT NOT PROVED (hence _partial): "... whenever all leading principal minors of order < n are non-zero";
-   missing: the link between the pivots met by the unpivoted loop and the leading principal minors, and the case of a
-   zero pivot in the last column (where the code returns 0 = \det A).  The sound halves for the unpivoted mode ARE proved
-   at full strength: C02_solve_sound, C02_invert_sound, C02_singular_solve, C02_singular_invert hold for piv = false. *)
-Theorem C02_det_nopivot_partial : forall n A A' sg, (3 < n)%N -> c02_wfm n A ->
-  c02_lu ops (c02_ElimDet ops) n false A 1 = C02_LU_Ok (A', sg) ->
+(* ---- doPivoting = false: "whenever the unpivoted elimination is defined".
+   lead k M (C02_Proofs_NoPivot.lead) is M with everything outside its leading k x k block replaced by the identity, so
+   \det (lead k M) is the leading principal minor of order k;  minors_nz m M := forall k, 0 < k < m -> \det (lead k M) != 0.
+   determinant needs the minors of order < n (a zero LAST pivot is a singular matrix and yields 0 = \det A),
+   solve / invert need all of them (order n is \det A itself).
+   (Only this direction is proved; the converse "Ok only if the minors are non-zero" is not.  The sound halves for the
+   unpivoted mode hold unconditionally: C02_solve_sound, C02_invert_sound, C02_singular_solve, C02_singular_invert.) *)
+Theorem C02_det_nopivot : forall n A, (0 < n)%N -> c02_wfm n A -> minors_nz n (mx n A) ->
   c02_determinant ops A false = C02_Ok (\det (mx n A)).
-Proof. exact (P_det_lu_nopivot absr0). Qed.
+Proof. exact (P_det_nopivot absr0). Qed.
+Theorem C02_solve_nopivot : forall n A b, (0 < n)%N -> c02_wfm n A -> c02_wfv n b -> minors_nz n.+1 (mx n A) ->
+  exists x, c02_solve ops A b false = C02_Ok x /\ mx n A *m cv n x = cv n b.
+Proof. exact (P_solve_nopivot absr0). Qed.
+Theorem C02_invert_nopivot : forall n A, (0 < n)%N -> c02_wfm n A -> minors_nz n.+1 (mx n A) ->
+  exists B, [/\ c02_invert ops A false = C02_Ok B, mx n A *m mx n B = 1%:M & mx n B *m mx n A = 1%:M].
+Proof. exact (P_invert_nopivot absr0). Qed.
 
-(* NOT PROVED (no theorem; covered by the correspondence check only, see evidence):
-   - "inputs unchanged": the model is purely functional (A, b are values); the impl side of the correspondence check
-     compares A and b before/after every solve/determinant call (flag U). *)
+(* ---- FMatrixHelp::invertMatrix (tr = false) / invertMatrix_retTransposed (tr = true), n = 1,2,3:
+   returns \det A and the inverse (resp. the transposed inverse); succeeds on every nonsingular matrix *)
+Theorem C02_help_invert : forall n A tr d B, (0 < n <= 3)%N -> c02_wfm n A ->
+  c02_help_invert ops A tr = C02_Ok (d, B) ->
+  let Binv := if tr then (mx n B)^T else mx n B in
+  [/\ d = \det (mx n A), mx n A *m Binv = 1%:M & Binv *m mx n A = 1%:M].
+Proof. exact (@help_invert_sound F absr). Qed.
+Theorem C02_help_invert_complete : forall n A tr, (0 < n <= 3)%N -> c02_wfm n A -> mx n A \in unitmx ->
+  exists d B, c02_help_invert ops A tr = C02_Ok (d, B).
+Proof. exact (@help_invert_complete F absr). Qed.
+
+(* ---- DiagonalMatrix<K,n> with diagonal d (a list of length n >= 1): dmx n d = diag_mx d, which is also the dense
+   list matrix c02_diag_dense d the DiagonalMatrix stands for.  Its solve / invert / determinant are those of diag_mx d. *)
+Theorem C02_diag_dense : forall d, mx (size d) (c02_diag_dense ops d) = dmx absr (size d) d.
+Proof. exact (@diag_dense_mx F absr). Qed.
+Theorem C02_diag_solve : forall d b x, size b = size d -> c02_diag_solve ops d b = Some x ->
+  size x = size d /\ dmx absr (size d) d *m cv (size d) x = cv (size d) b.
+Proof. exact (@diag_solve_sound F absr). Qed.
+Theorem C02_diag_invert : forall d e, c02_diag_invert ops d = Some e ->
+  size e = size d /\ dmx absr (size d) d *m dmx absr (size d) e = 1%:M /\ dmx absr (size d) e *m dmx absr (size d) d = 1%:M.
+Proof. exact (@diag_invert_sound F absr). Qed.
+Theorem C02_diag_complete : forall d b, size b = size d -> dmx absr (size d) d \in unitmx ->
+  (exists x, c02_diag_solve ops d b = Some x) /\ (exists e, c02_diag_invert ops d = Some e).
+Proof. exact (@diag_total F absr). Qed.
+Theorem C02_diag_det : forall d, (0 < size d)%N -> c02_diag_det ops d = \det (dmx absr (size d) d).
+Proof. exact (@diag_det F absr). Qed.
+
+(* NOT A THEOREM: "inputs unchanged" — the model is purely functional (A, b are values); the impl side of the
+   correspondence check compares A and b before/after every solve / determinant call (flag U). *)
 End Statements.
 
 Print Assumptions C02_solve_sound.
@@ -82,7 +115,16 @@ Print Assumptions C02_det.
 Print Assumptions C02_det_closed.
 Print Assumptions C02_singular_solve.
 Print Assumptions C02_singular_invert.
-Print Assumptions C02_det_nopivot_partial.
+Print Assumptions C02_det_nopivot.
+Print Assumptions C02_solve_nopivot.
+Print Assumptions C02_invert_nopivot.
+Print Assumptions C02_help_invert.
+Print Assumptions C02_help_invert_complete.
+Print Assumptions C02_diag_dense.
+Print Assumptions C02_diag_solve.
+Print Assumptions C02_diag_invert.
+Print Assumptions C02_diag_complete.
+Print Assumptions C02_diag_det.
 
 (* ---- non-vacuity: the hypotheses are satisfiable by non-trivial values.  'F_7 with absr = representative. *)
 Definition c02_ex_abs7 (x : 'F_7) : nat := x.
@@ -112,6 +154,19 @@ Proof. by vm_compute. Qed.
 Example C02_ex_nopivot_undefined_F7 :
   c02_ex_obsv (c02_solve (c02_fops c02_ex_abs7) c02_ex_A (c02_ex_v [:: 1; 2; 3; 4]%N) false) = C02_FMatrixError /\
   c02_ex_obs1 (c02_determinant (c02_fops c02_ex_abs7) c02_ex_A true) = C02_Ok 6%N.
+Proof. by vm_compute. Qed.
+(* invert of the same 4x4 (two row swaps, hence a non-trivial column un-permutation) *)
+Definition c02_ex_obsm (r : c02_res (seq (seq 'F_7))) : c02_res (seq (seq nat)) :=
+  match r with C02_Ok x => C02_Ok (map (map (@nat_of_ord _)) x) | C02_FMatrixError => C02_FMatrixError | C02_DivByZero => C02_DivByZero end.
+Example C02_ex_invert_F7 :
+  c02_ex_obsm (c02_invert (c02_fops c02_ex_abs7) c02_ex_A true)
+  = C02_Ok [:: [:: 3; 0; 5; 1]; [:: 1; 5; 5; 4]; [:: 5; 2; 5; 6]; [:: 6; 4; 2; 4]]%N.
+Proof. by vm_compute. Qed.
+(* a matrix whose leading principal minors are all 1: the unpivoted elimination is defined *)
+Definition c02_ex_T := c02_ex_m [:: [:: 1; 1; 0; 0]; [:: 1; 2; 1; 0]; [:: 0; 1; 2; 1]; [:: 0; 0; 1; 2]]%N.
+Example C02_ex_nopivot_defined_F7 :
+  c02_ex_obs1 (c02_determinant (c02_fops c02_ex_abs7) c02_ex_T false) = C02_Ok 1%N /\
+  c02_ex_obsv (c02_solve (c02_fops c02_ex_abs7) c02_ex_T (c02_ex_v [:: 1; 2; 3; 4]%N) false) = C02_Ok [:: 0; 1; 0; 2]%N.
 Proof. by vm_compute. Qed.
 (* the instance run by the correspondence check (integers mod 7) computes the same on this input *)
 Example C02_ex_solve_zp7 :
